@@ -160,12 +160,17 @@ CHECKS = {
         technique="Coq proof (cursor chain along the stages, inductive invariant) + trace validation + trace monitors under a deterministic scheduler",
         design="§7.R C13"),
     "C14": dict(
-        text="Theorems (Coq): for ANY number of threads and ANY interleaving of loads and compare-and-swaps on the high watermark, the ranges returned by successful claims tile the sequence space in "
-             "claim order, are pairwise disjoint, cover it without gaps and have the requested lengths; a cursor that is only ever swapped upwards never decreases; single producer: the cursor never "
-             "covers an unwritten sequence and equals the highest claimed sequence when the producer is idle. Monitors on every explored schedule (incl. out-of-order publishes on rings of 2..128 slots): "
-             "claims, cursor monotone, never past an unwritten sequence, final cursor = highest claimed (violated by the multi producer with >= 2 publishers: known finding D8).",
-        note=LEVEL_NOTE_COMMON + "Axioms: none. " + "the deterministic scheduler hooks (cfg deepcausality_rs_deep_causality_verif) make every atomic / mutex / condvar operation and slot access of the real code a scheduling point and log it with its real Ordering; The multi-producer publish path (bitmap scan, low watermark) is explored, not proved.",
-        technique="Coq proof (atomicity of a single location: CAS histories) + trace monitors under a deterministic scheduler",
+        text="Theorems (Coq): (a) for ANY number of threads and ANY interleaving of loads and compare-and-swaps on the high watermark, the ranges returned by successful claims tile the sequence space in "
+             "claim order, are pairwise disjoint, cover it without gaps and have the requested lengths; a cursor that is only ever swapped upwards never decreases. (b) Sequencers driven through the "
+             "Sequencer API (Disruptor/SeqApi.v mirrors next / publish of both sequencers statement by statement, the ready bitmap being the BitMap model): for EVERY history - any number of outstanding "
+             "claims, any consumer progress, and for the multi-producer sequencer publishes completing in ANY order - the executable property [check] (contiguous claims of the requested length, cursor "
+             "monotone, never past an unpublished sequence, equal to the highest claim once all is published) accepts the single-producer model (sp_property, publishes in claim order) and can only fail "
+             "the multi-producer model with verdict 5 = all published but cursor below the highest claim (mp_property; mp_stranding exhibits it: known finding D8). So 'never past an unpublished sequence' "
+             "is proved for the bitmap / low-watermark publish path, any ring size 2^k. (c) single-producer pipeline: cursor never covers an unwritten sequence. The SAME extracted [check] judges the "
+             "implementation's histories (harness/ds seqapi: real sequencers driven directly), whose outputs are also compared with the extracted model; monitors on every explored concurrent schedule "
+             "(multi producer with 2-3 writer threads, rings of 2..128 slots).",
+        note=LEVEL_NOTE_COMMON + "Axioms: none. " + "the deterministic scheduler hooks (cfg deepcausality_rs_deep_causality_verif) make every atomic / mutex / condvar operation and slot access of the real code a scheduling point and log it with its real Ordering; The multi-producer publish path is proved for publishes that do not overlap in time (any order); truly concurrent publishes are explored by the scheduler and monitored, not proved.",
+        technique="Coq proof (CAS histories; sequential sequencer models with a bitmap-window invariant; proved-about property checker applied to implementation histories) + trace monitors under a deterministic scheduler",
         design="§7.R C14"),
 }
 
